@@ -262,6 +262,30 @@ func VH_c11_merge_gomap() {
 	zz.Assert(mapEq(m.Combine(m.Empty(), a), a) && mapEq(m.Combine(a, m.Empty()), a), "MergeGoMap: identity")
 }
 
+// Go maps are mutable: Combine must build a new map and leave both operands (and earlier results) alone,
+// also when the two operands are the same map
+func VH_c11_merge_gomap_values() {
+	zz.Config("mapperm", 0)
+	a, b, c := mkMap("a", 2), mkMap("b", 1), mkMap("c", 1)
+	switch zz.Choice("alias", 3) {
+	case 1:
+		b = a
+	case 2:
+		c = a
+	}
+	snap := func(m map[int]int) map[int]int {
+		if m == nil {
+			return nil
+		}
+		r := map[int]int{}
+		for k, v := range m {
+			r[k] = v
+		}
+		return r
+	}
+	valueLaws[map[int]int](monoid.MergeGoMap[int, int](), a, b, c, mapEq, snap, "MergeGoMap")
+}
+
 func VH_c11_merge_gomap_assoc() {
 	zz.Config("mapperm", 0)
 	a, b, c := mkMap("a", 1), mkMap("b", 2), mkMap("c", 1)
